@@ -1,4 +1,4 @@
-import QM.Path
+import QM.PathLemmas
 namespace Pth
 
 /-- C12, `resolves`: a link at OUT/xs/name whose target is `..` repeated |xs| times followed by the
